@@ -347,8 +347,12 @@ static lp_id_t get_neighbor_star(lp_id_t from, struct topology *topology, enum t
 		return INVALID_DIRECTION;
 	}
 
-	if(from == 0)
+	if(from == 0) {
+		// Corner case: a star made only of its center has no neighbors
+		if(topology->regions == 1)
+			return INVALID_DIRECTION;
 		return RandomRange(1, (int)(topology->regions - 1));
+	}
 	return 0;
 }
 
